@@ -155,13 +155,15 @@ CLAIMED["C19"] = {
 }
 CLAIMED["C20"] = {
     "text": "Integer model of valued_cells_to_moc_with_opt and its four descents (asserts as faults), in exact agreement with the f64 code on dyadic maps for all 16 option "
-            "combinations. Theorems: the accumulation loops take the maximal prefix with cumulative value <= threshold (every cell strictly between the thresholds is selected), the "
-            "sub-cell loop is Euclidean division, the upper-boundary descent never fails and terminates for every target below the cell value (incl. 0 and exact sub-cell boundaries). "
-            "Partial: the mass bracket and 'only cells of the map' are evaluated with exact integers on the implementation's output (not proved). One defect repaired (acc not advanced "
-            "past the split lower boundary cell), one recorded as open finding (both thresholds inside one cell).",
+            "combinations. Theorems: the accumulation loops take the maximal prefix with cumulative value <= threshold (every cell strictly between the thresholds is selected); the sub-cell "
+            "loop is Euclidean division; the upper-boundary descent never fails and terminates; the value enclosed by each of the four descents is within one deepest piece of its target (below "
+            "in strict mode, above in non-strict mode); and the MASS BRACKET of the whole selection (selection_mass_bracket): for every dyadic map, every from <= to <= total and every option "
+            "combination, the enclosed value differs from (to - from) by at most one boundary piece per threshold, never above in strict mode, never below in non-strict mode — whenever the two "
+            "thresholds are not strictly inside the same cell; a proved counterexample shows that hypothesis is necessary (= the open finding). The mass bracket and 'only cells of the map' are "
+            "also evaluated with exact integers on the implementation's output. One defect repaired (acc not advanced past the split lower boundary cell).",
     "design_ref": "DESIGN.md §4 C20, §10",
     "note": TB + "; exactness of f64 arithmetic on dyadic inputs",
-    "technique": "Lean 4 proof (loop lemmas, totality) + differential correspondence + exact-integer property check on implementation output",
+    "technique": "Lean 4 proof (loop lemmas, descent mass lemmas by induction on the depth, two-stage bracket theorem) + differential correspondence + exact-integer property check on implementation output",
 }
 CLAIMED["C14"] = {
     "text": "Reference state machine of a moc-set (ordered entries, capacity 128*n128-1, statuses) with theorems: a refused append leaves the state unchanged; an append succeeds iff the id "
